@@ -817,15 +817,16 @@ impl<'a> Lexer<'a> {
     }
 
     fn internal_next(&mut self) -> Option<LexerToken> {
-        if self.result.is_err() {
-            // Invalid lexing state
-            // do not continue consuming characters
-            return None;
-        }
-
         let mut next_token = None;
 
         loop {
+            if self.result.is_err() {
+                // Invalid lexing state
+                // do not continue consuming characters
+                // checked before every character so that the first error is kept
+                break;
+            }
+
             match self.input_iter.next() {
                 Some(c) => match self.process_char(c) {
                     Some(t) => {
